@@ -139,12 +139,33 @@ func (fv *FuncVerifier) hasModSpec() bool {
 	return false
 }
 
+// modifiesNothing: the contract says `modifies nothing` and nothing else about the heap
+func (fv *FuncVerifier) modifiesNothing() bool {
+	nothing := false
+	for _, m := range fv.activeMods() {
+		if m.Pred != nil {
+			return false
+		}
+		if m.Nothing {
+			nothing = true
+		}
+	}
+	return nothing
+}
+
 func (fv *FuncVerifier) modTags() []string { return []string{"C13", "C17"} }
 
 func (fv *FuncVerifier) ghostAllowed(h string) bool {
 	for _, m := range fv.activeMods() {
 		for _, g := range m.Ghosts {
 			if "gh."+g == h {
+				return true
+			}
+		}
+	}
+	if fv.spec != nil {
+		for _, sc := range fv.spec.Sets {
+			if "gh."+sc.Ghost == h {
 				return true
 			}
 		}
@@ -271,6 +292,18 @@ func (fv *FuncVerifier) invEnv(e *Enc, h *ssa.BasicBlock, phiSubst map[*ssa.Phi]
 		}
 		base.preVer = snap
 	}
+	// $visitedN: iterator of loop N
+	base.visitedOf = func(n int, k string) (string, error) {
+		if n < 0 || n >= len(fv.headers) {
+			return "", fmt.Errorf("no loop %d", n)
+		}
+		for _, in := range fv.headers[n].Instrs {
+			if nx, ok := in.(*ssa.Next); ok && !nx.IsString {
+				return fmt.Sprintf("(select %s %s)", e.H(e.iterHeap(nx.Iter.(*ssa.Range))), k), nil
+			}
+		}
+		return "", fmt.Errorf("loop %d is not a map range", n)
+	}
 	// $visited: iterator of the Next in this header
 	for _, in := range h.Instrs {
 		if nx, ok := in.(*ssa.Next); ok && !nx.IsString {
@@ -289,7 +322,7 @@ func (fv *FuncVerifier) invEnv(e *Enc, h *ssa.BasicBlock, phiSubst map[*ssa.Phi]
 
 func (fv *FuncVerifier) newEnc(name string) *Enc {
 	e := &Enc{w: fv.w, fn: fv.fn, spec: fv.spec, pass: fv.pass, fv: fv, decls: map[string]string{}, funDecls: map[string]string{},
-		ver: map[string]int{}, cur: map[string]int{}, segName: name, dec0: map[*ssa.BasicBlock]string{}, loopPre: map[*ssa.BasicBlock]map[string]int{}, letLevel: map[string]int{}, opaque: map[string]string{}, refVals: map[string][]string{}, refSeen: map[string]bool{}, refBlk: map[string]*ssa.BasicBlock{}, ancCache: map[*ssa.BasicBlock]map[*ssa.BasicBlock]bool{}, reach: map[*ssa.BasicBlock]string{}, exitHeap: map[*ssa.BasicBlock]map[string]int{},
+		ver: map[string]int{}, cur: map[string]int{}, segName: name, dec0: map[*ssa.BasicBlock]string{}, loopPre: map[*ssa.BasicBlock]map[string]int{}, letLevel: map[string]int{}, opaque: map[string]string{}, letDef: map[string]string{}, refVals: map[string][]string{}, refSeen: map[string]bool{}, refBlk: map[string]*ssa.BasicBlock{}, ancCache: map[*ssa.BasicBlock]map[*ssa.BasicBlock]bool{}, reach: map[*ssa.BasicBlock]string{}, exitHeap: map[*ssa.BasicBlock]map[string]int{},
 		inSeg: map[*ssa.BasicBlock]bool{}}
 	return e
 }
